@@ -15,6 +15,7 @@ package main
 import (
 	"bytes"
 	"fmt"
+	"sort"
 	"sync"
 	"sync/atomic"
 
@@ -367,6 +368,7 @@ func streamTasks(maxW int) []streamTask {
 		}
 	}
 	gen(nil)
+	sort.SliceStable(out, func(a, b int) bool { return len(out[a].writes) < len(out[b].writes) })
 	return out
 }
 
